@@ -578,7 +578,9 @@ func runC17(c *core.Ctx, i int) {
 	st := &c17st
 	if st.wb == nil {
 		st.wb = avro.NewWriteBuf(make([]byte, 0, 64))
-		st.rb = avro.NewReadBuf(nil)
+		// built over a long input and re-pointed with Reset for every candidate (what a caller decoding frames out
+		// of one buffer does); whatever the ReadBuf remembers about its first input must not matter
+		st.rb = avro.NewReadBuf(bytes.Repeat([]byte{0x01}, 4096))
 	}
 	r := c.Rand(i, 0)
 	var n int64
